@@ -42,6 +42,7 @@ var verifErrFault = errors.New("verif: injected store fault")
 
 func verifNewStore() *verifStoreT {
 	verifMaxRows = 0
+	verifDuringTopicDelete = nil
 	s := &verifStoreT{
 		subs:   map[string]*types.Subscription{},
 		topics: map[string]*types.Topic{},
@@ -404,8 +405,16 @@ func (verifTopics) OwnerChange(topic string, newOwner types.Uid) error {
 	return nil
 }
 
+// verifDuringTopicDelete, when set, runs while the store is deleting a topic (what other goroutines may do meanwhile)
+var verifDuringTopicDelete func()
+
 func (verifTopics) Delete(topic string, isChan, hard bool) error {
 	s := verifStore
+	if verifDuringTopicDelete != nil {
+		f := verifDuringTopicDelete
+		verifDuringTopicDelete = nil
+		f()
+	}
 	if err := s.mutate("Topics.Delete"); err != nil {
 		return err
 	}
